@@ -132,7 +132,7 @@ def main():
         ],
         checks=checks,
         not_applicable=na,
-        notes="All checks are bounded exhaustive enumeration (model-checking family); no sampling. VERIF_SEED is recorded but unused. Every check additionally reruns its quick tier in a release-profile build of the harness (opt-level 3, no overflow checks, no debug assertions) and folds the result in as one more stage.",
+        notes="All checks are bounded exhaustive enumeration (model-checking family); no sampling. VERIF_SEED is recorded but unused. Every check additionally reruns its quick tier in a release-profile build of the harness (opt-level 3, no overflow checks, no debug assertions) and folds the result in as one more stage. Known findings: known_findings.txt (committed, never written at run time) - one open finding, C03 thorough tier (a translated block in the switchable ROM bank that switches its own bank; DESIGN.md section 9), printed as KNOWN-FINDING with exit 0; all other entries are fixed: records that suppress nothing.",
     )
     json.dump(m, open(os.path.join(ROOT, "MANIFEST.json"), "w"), indent=1)
     print("MANIFEST.json: %d checks, %d not yet implemented" % (len(checks), len(na)))
